@@ -16,6 +16,7 @@ import (
 	"time"
 
 	baselog "github.com/grailbio/base/log"
+	"github.com/grailbio/base/retry"
 	"github.com/grailbio/bigmachine"
 	"github.com/grailbio/bigmachine/testsystem"
 	"github.com/grailbio/bigslice"
@@ -96,6 +97,11 @@ func Start(cfg Config) *Session {
 	oc3 := sortio.VerifSetChunk(chunk)
 	oldSR := exec.DoShuffleReaders
 	exec.DoShuffleReaders = !cfg.NoShuffleReaders
+	// Time-scale knobs that only stretch waiting (DESIGN.md 2.4): probation of a machine after a
+	// failed task and the back-off of remote reads.
+	oldProb := exec.ProbationTimeout
+	exec.ProbationTimeout = 300 * time.Millisecond
+	oldRetry := exec.VerifSetRetryPolicy(retry.MaxRetries(retry.Backoff(5*time.Millisecond, 50*time.Millisecond, 2), 5))
 	sizeMu.Unlock()
 	s.restore = func() {
 		sizeMu.Lock()
@@ -104,6 +110,8 @@ func Start(cfg Config) *Session {
 		sliceio.VerifSetChunk(oc2)
 		sortio.VerifSetChunk(oc3)
 		exec.DoShuffleReaders = oldSR
+		exec.ProbationTimeout = oldProb
+		exec.VerifSetRetryPolicy(oldRetry)
 		sizeMu.Unlock()
 	}
 	var opts []exec.Option
